@@ -3,6 +3,7 @@ package main
 import (
 	"container/list"
 	"fmt"
+	"iter"
 	"math/rand"
 
 	"github.com/welllog/golib/listz"
@@ -89,6 +90,7 @@ func c13ImplD(z0, z1 int64, ops []int64) []int64 {
 		}
 	}
 	out := []int64{}
+	heldD := [2]iter.Seq[int]{d.l[0].All(), d.l[1].All()} // All() sequences obtained EARLIER than they are walked
 	for i := 0; i+3 < len(ops); i += 4 {
 		code, L, a, b := ops[i], ops[i+1], ops[i+2], ops[i+3]
 		if L < 0 || L > 1 {
@@ -327,7 +329,12 @@ func c13ImplD(z0, z1 int64, ops []int64) []int64 {
 			r, rs = PutList(w), PutList(ws)
 		case 24:
 			var w, ws []int64
-			for v := range l.All() {
+			seqD := l.All()
+			if (i/4)%2 == 0 {
+				seqD = heldD[L]
+			}
+			heldD[L] = l.All()
+			for v := range seqD {
 				w = append(w, int64(v))
 				if (a > 0 && int64(len(w)) >= a) || len(w) >= c13MaxWalk {
 					break
@@ -362,6 +369,7 @@ func c13ImplS(z0 int64, ops []int64) []int64 {
 	if z0 == 0 {
 		l = listz.NewSingly[int]()
 	}
+	heldS := l.All() // an All() sequence obtained EARLIER than it is walked
 	var nodes []*listz.SNode[int]
 	nid := map[*listz.SNode[int]]int{}
 	reg := func(n *listz.SNode[int]) int {
@@ -463,7 +471,12 @@ func c13ImplS(z0 int64, ops []int64) []int64 {
 			out = append(out, PutList(w)...)
 		case 16:
 			var w []int64
-			for v := range l.All() {
+			seqS := l.All()
+			if (i/4)%2 == 0 {
+				seqS = heldS
+			}
+			heldS = l.All()
+			for v := range seqS {
 				w = append(w, int64(v))
 				if (a > 0 && int64(len(w)) >= a) || len(w) >= c13MaxWalk {
 					break
